@@ -1,0 +1,12 @@
+//go:build verif
+
+package leader
+
+import "github.com/nats-io/nats.go"
+
+// VerifNewNATSKeyValue exposes the unexported NATS adapter to the verification
+// harness under /verif (differential check of the store contract). It is compiled
+// only with -tags verif and adds nothing to normal builds.
+func VerifNewNATSKeyValue(kv nats.KeyValue) KeyValue {
+	return &natsKeyValueAdapter{kv: kv}
+}
